@@ -562,6 +562,8 @@ class ExcelCompiler:
                     processed_cells.add(child_address)
                     child_cell = self.cell_map[child_address]
                     if child_address in needed_cells or ':' in child_address:
+                        # ranges stay in the cell map so they stay connected
+                        needed_cells.add(child_address)
                         walk_precedents(child_cell)
                     else:
                         # trim this cell, now we will need only its value
